@@ -3,6 +3,7 @@ import AfqmcVerif.Lemmas.Estimator
 import AfqmcVerif.Lemmas.CisdOverlap
 import AfqmcVerif.Lemmas.UcisdOverlap
 import AfqmcVerif.Lemmas.GcisdOverlap
+import AfqmcVerif.Lemmas.ThcOverlap
 import Mathlib.Data.Matrix.ColumnRowPartitioned
 import Mathlib.LinearAlgebra.Matrix.SchurComplement
 
@@ -119,5 +120,14 @@ theorem gcisd_overlap_is_manybody {k v : ℕ} (W : Matrix (Fin (k + v)) (Fin k) 
     (c2 : Fin k → Fin v → Fin k → Fin v → K) (hW : AfqmcVerif.Excite.D0 W ≠ 0) (h2 : (2 : K) ≠ 0) :
     AfqmcVerif.Excite.gcisdCode W c1 c2 = AfqmcVerif.Excite.gcisdSpec W c1 c2 :=
   AfqmcVerif.Excite.gcisd_overlap W c1 c2 hW h2
+
+/-- **THC-factorised CISD overlap** (`CISD_THC`): evaluating with the factors `X1, X2, V` is the CISD closed form for
+`c_iajb = Σ_PQ X1_Pi X2_Pa V_PQ X1_Qj X2_Qb` (no symmetry of `V` needed), hence the explicit determinant expansion -/
+theorem cisd_thc_overlap_is_manybody {k v p : ℕ} (W : Matrix (Fin (k + v)) (Fin k) K) (c1 : Fin k → Fin v → K)
+    (Xo : Fin p → Fin k → K) (Xv : Fin p → Fin v → K) (V : Fin p → Fin p → K)
+    (hW : AfqmcVerif.Excite.D0 W ≠ 0) (h2 : (2 : K) ≠ 0) :
+    AfqmcVerif.Excite.thcCode W c1 Xo Xv V
+      = AfqmcVerif.Excite.cisdSpec W c1 (AfqmcVerif.Excite.thcTensor Xo Xv V) :=
+  AfqmcVerif.Excite.thc_overlap W c1 Xo Xv V hW h2
 
 end AfqmcVerif.Props.C01
